@@ -7,12 +7,9 @@ Model: `Model/Http.lean` (`parseRequest`, written once against `Source`), `Model
 (`Reader` = `BufReader` over a stream delivered in arbitrary chunks).
 
 Proved here: independence of the segmentation for **every** input (well-formed or not),
-case-insensitive lookup, the X-Forwarded-For rule. Not yet proved in Lean (checked by the
-correspondence run against an independent denotation of generated requests, see
-`harness/src/c02.rs`):
-
-  theorem parse_render (r : WfReq) (chunking) : parseRequest (chunk (render r)) = ok (denote r)
-  theorem roundtrip (q : Request) (wf : q.WF) : parseRequest [serializeRequest q] ≈ ok q
+case-insensitive lookup, the X-Forwarded-For rule. Faithfulness (`parse_render`), preservation of
+same-named fields (`get_all_parsed`, `sorted_getAll`) and the serialise/parse round trip
+(`roundtrip`, `parse_serialize_parse`) are in `Props/C02Faithful.lean`.
 -/
 namespace Humphrey.Http
 open Humphrey Humphrey.IO
